@@ -37,8 +37,16 @@ CommentChunks ==
   {PlainChunk(<<x>>) : x \in {10, 13, 32, 35, 47, 42, 120}}
   \cup {PlainChunk(KwBytes[k]) : k \in {"GET", "URL"}}
   \cup {PlainChunk(<<47,97>>), PlainChunk(<<35,35,35>>)}                                \* /a  ###
-Chunks == IF Focus = "description" THEN DescChunks ELSE IF Focus = "comments" THEN CommentChunks ELSE AllChunks
-Start == IF Focus = "description" THEN FeedChunk(Init0, PlainChunk(KwBytes["Description"] \o <<10>>)) ELSE Init0
+\* what follows a schema body: the dependency measures the body (Len) and also reads what stands behind it
+\* (explored WITHOUT the VIEW: what the dependency does behind a body depends on the bytes it has already read there)
+BodyTailChunks ==
+  {PlainChunk(<<x>>) : x \in {10, 32, 35, 47, 40, 41, 120}}
+  \cup {PlainChunk(KwBytes["GET"]), PlainChunk(<<32,47,97>>)}                          \* GET, " /a"
+Chunks == IF Focus = "description" THEN DescChunks ELSE IF Focus = "comments" THEN CommentChunks
+          ELSE IF Focus = "bodytail" THEN BodyTailChunks ELSE AllChunks
+Start == IF Focus = "description" THEN FeedChunk(Init0, PlainChunk(KwBytes["Description"] \o <<10>>))
+         ELSE IF Focus = "bodytail" THEN FeedChunk(FeedChunk(Init0, PlainChunk(KwBytes["TYPE"] \o <<32,64,116,10>>)), BodyChunk(<<123,125>>, TRUE, FALSE, 0))   \* TYPE @t / {}
+         ELSE Init0
 
 Init == st = Start
 Feed == /\ CanFeed(st)
